@@ -2,7 +2,7 @@
 EXTENDS Lattice, TLC, Json
 Emit == PrintT(<<"EMIT", ToJson([fam |-> fam, U |-> U, D |-> D, ax |-> ax, bx |-> bx, by |-> by,
                                   fx |-> fx, fy |-> fy, c |-> Orients[o][1], s |-> Orients[o][2],
-                                  h |-> Orients[o][3], k |-> k, zero |-> zero,
+                                  h |-> Orients[o][3], mir |-> mir, k |-> k, zero |-> zero,
                                   cart |-> ToCart(fx, fy), area |-> Area, corners |-> Corners,
                                   images |-> Images])>>)
 =============================================================================
